@@ -246,3 +246,16 @@ package module
 //@   trusted
 //@   pure
 //@   ensures seq(h) == digest_hash(d)
+// the network section filter of a digest, as bytes (nsf_of / nsf_bytes: the digest last asked for
+// its filter and the bytes last taken from a filter)
+//@ smt all (declare-ghost nsf_of Iface)
+//@ smt all (declare-ghost nsf_bytes Slice)
+//@ func (d BTPDigest) NetworkSectionFilter() (f)
+//@   iface
+//@   trusted
+//@   pure
+//@   opt ghost:nsf_of d
+//@ func (f BitSetFilter) Bytes() (r)
+//@   trusted
+//@   pure
+//@   opt ghost:nsf_bytes r
